@@ -107,10 +107,28 @@ impl KvIter {
                 ==> f.ensures((#[trigger] iter_kvs(&self)[i],), None),
     { unimplemented!() }
 }
+pub uninterp spec fn seq_origin<B>(it: &SeqIter<B>) -> Seq<B>;   // the items before filter / take were applied
+pub open spec fn take_n<B>(s: Seq<B>, n: usize) -> Seq<B> { if n <= s.len() { s.subrange(0, n as int) } else { s } }
+pub open spec fn filter_by<B, P: Fn(&B) -> bool>(s: Seq<B>, p: P) -> Seq<B> decreases s.len() {
+    if s.len() == 0 { Seq::empty() } else if call_ensures(p, (&s.last(),), true) { filter_by(s.drop_last(), p).push(s.last()) } else { filter_by(s.drop_last(), p) }
+}
 impl<B> SeqIter<B> {
     #[verifier::external_body]
     pub fn collect(self) -> (v: Vec<B>)
         ensures v@ == seq_items(&self)
+    { unimplemented!() }
+    // filter(p): exactly the items p keeps, in order (p is called once per item, in order)
+    #[verifier::external_body]
+    pub fn filter<P: Fn(&B) -> bool>(self, p: P) -> (r: SeqIter<B>)
+        requires forall|b: B| p.requires((&b,)),
+        ensures seq_items(&r) == filter_by(seq_items(&self), p),
+            seq_origin(&r) == seq_items(&self), seq_src(&r) == seq_src(&self), seq_idx(&r) == seq_idx(&self), seq_bounds(&r) == seq_bounds(&self),
+    { unimplemented!() }
+    // take(n): the first n items
+    #[verifier::external_body]
+    pub fn take(self, n: usize) -> (r: SeqIter<B>)
+        ensures seq_items(&r) == take_n(seq_items(&self), n),
+            seq_origin(&r) == seq_origin(&self), seq_src(&r) == seq_src(&self), seq_idx(&r) == seq_idx(&self), seq_bounds(&r) == seq_bounds(&self),
     { unimplemented!() }
 }
 // fjall's Slice derefs to its bytes
